@@ -22,6 +22,8 @@ func init() {
 }
 
 var (
+	c19pChained   = sim.RegStat("probe:c19-next-read-started-from-inside-the-completion")
+	c19pChainedW  = sim.RegStat("probe:c19-next-write-started-from-inside-the-completion")
 	c19pCutPrefix = sim.RegStat("probe:c19-cut-inside-length-prefix")
 	c19pBlockW    = sim.RegStat("probe:c19-would-block-inside-item-write")
 	c19pHostile   = sim.RegStat("probe:c19-hostile-input")
@@ -103,6 +105,41 @@ func (d *c19) readItems(cc *c19Conn, n int, async bool, bytesExpected int) ([][]
 	var got [][]byte
 	idle := 0
 	limit := 4000 + 4*bytesExpected
+	if async && n > 0 && d.w.Chance(1, 2) {
+		// the usual receive loop: the completion handler starts the next read itself
+		d.w.Stat(c19pChained)
+		finished := false
+		var rerr error
+		var step func()
+		step = func() {
+			cc.AsyncReadNext(func(e error, it []byte) {
+				if e != nil {
+					rerr, finished = e, true
+					return
+				}
+				got = append(got, append([]byte(nil), it...))
+				if len(got) < n {
+					step()
+				} else {
+					finished = true
+				}
+			})
+		}
+		step()
+		for i := 0; !finished; i++ {
+			before := d.w.KernelCalls
+			d.pump()
+			if d.w.KernelCalls-before <= 1 {
+				idle++
+			} else {
+				idle = 0
+			}
+			if idle > 300 || i > limit*(n+1) {
+				return got, errors.New("AsyncReadNext never completed")
+			}
+		}
+		return got, rerr
+	}
 	for rounds := 0; len(got) < n; rounds++ {
 		if rounds > limit {
 			return got, errors.New("reader made no end (livelock)")
@@ -282,7 +319,41 @@ func runC19(c *Ctx, variant int) {
 		cc, _, dst := d.newCodecConn(conn)
 		n := w.Range(1, 10)
 		items := d.payloads(n, false)
-		for i, p := range items {
+		if async && w.Chance(1, 2) {
+			// the usual send loop: the completion handler of one item starts the write of the next
+			w.Stat(c19pChainedW)
+			finished := false
+			var step func(i int)
+			step = func(i int) {
+				p := items[i]
+				cc.AsyncWriteNext(p, func(e error, _ int) {
+					if e != nil {
+						c.Failf("write-failed", "AsyncWriteNext of item %d (%d bytes) failed on a healthy connection: %v", i, len(p), e)
+					}
+					if dst.ReadLen() != 0 || dst.WriteLen() != 0 {
+						c.Failf("item-left-behind-after-write", "after the write of item %d (%d bytes) completed successfully the destination buffer still holds %d readable and %d uncommitted bytes", i, len(p), dst.ReadLen(), dst.WriteLen())
+					}
+					if i+1 < len(items) {
+						step(i + 1)
+					} else {
+						finished = true
+					}
+				})
+			}
+			step(0)
+			total := 0
+			for _, p := range items {
+				total += len(p) + 8
+			}
+			for k := 0; !finished; k++ {
+				if k > 4000*len(items)+4*total {
+					c.Failf("write-never-completes", "a chain of %d AsyncWriteNext calls, each started from the previous completion, never finished although the peer keeps reading", len(items))
+				}
+				d.pump()
+			}
+			items, n = items, 0
+		}
+		for i, p := range items[:n] {
 			if async {
 				done := false
 				var werr error
